@@ -682,6 +682,61 @@ def rule_r7(prog, res):
               '(C16-R9)', 'C16', c16.rule_r1, prog, Result)
 
 
+# ------------------------------------------------------------------- R8
+def rule_r8(prog, res):
+    res.rule('R8', 'field evolution applies the blanket policy before the '
+             'per-field policy in every sibling; a non-wrapped Array keeps '
+             'the bound its member type declares')
+    cm = prog.cls('spyne.model.complex:ComplexModelBase')
+    n = 0
+    for nm in ('_append_field_impl', '_insert_field_impl'):
+        f = cm.methods.get(nm)
+        if f is None:
+            continue
+        blanket = [c.lineno for c in calls_in(f.node) if call_name(c) ==
+                   'customize' and any(k.arg is None and 'dcaa' in unparse(
+                       k.value) or k.arg is None and 'child_attrs_all' in
+                       unparse(k.value) for k in c.keywords)]
+        single = [c.lineno for c in calls_in(f.node) if call_name(c) ==
+                  'customize' and any(k.arg is None and (
+                      'd_cust' in unparse(k.value) or "dca" == unparse(
+                          k.value)) for k in c.keywords)]
+        if not blanket or not single:
+            continue
+        n += 1
+        ok = max(blanket) < min(single)
+        res.ob('R8', f.where, '%s: child_attrs_all applied at line %s, '
+               'child_attrs at line %s' % (nm, blanket, single),
+               'ok' if ok else 'VIOLATED')
+        if not ok:
+            res.finding('R8', 'ComplexModelBase.%s|policy-order' % nm,
+                        f.where, '%s applies the per-field child_attrs '
+                        'before child_attrs_all, so the blanket policy wins: '
+                        'customize() and the sibling implementation let the '
+                        'per-field entry win, hence a variant carries '
+                        'different constraints depending on how the field '
+                        'was added' % nm)
+    res.floor('R8', 'field implementations applying both policies', n, 2)
+    arr = prog.cls('spyne.model.complex:Array')
+    f = arr.methods.get('__new__')
+    k = 0
+    for a in walk_no_defs(f.node):
+        st = a if isinstance(a, ast.Assign) else (
+            a if isinstance(a, ast.Expr) else None)
+        if st is None:
+            continue
+        txt = unparse(st)
+        if "'max_occurs'" in txt and 'unbounded' in txt:
+            k += 1
+            guardspec.check(res, 'R8', f, st, 'the default bound of a '
+                            'non-wrapped array (%s)' % txt[:40],
+                            allowed=[('wrapped', False)],
+                            required=[('serializer.Attributes.max_occurs == 1',
+                                       True)],
+                            key='Array.__new__|unbounded-default')
+    res.floor('R8', 'default bound of non-wrapped arrays', k, 1)
+
+
 def run(prog, res, tier):
     res.run_rule(rule_r1, prog, res)
     res.run_rule(rule_r2, prog, res)
@@ -690,12 +745,27 @@ def run(prog, res, tier):
     res.run_rule(rule_r5, prog, res)
     res.run_rule(rule_r6, prog, res)
     res.run_rule(rule_r7, prog, res)
+    res.run_rule(rule_r8, prog, res)
 
 
 _C = 'spyne/model/complex.py'
 _B = 'spyne/model/_base.py'
 
 MUTANTS = [
+    Mutant('insert-field-policy-order', 'R8', 'fire', _C,
+           in_func('ComplexModelBase._insert_field_impl',
+                   r"(        dcaa = cls\.Attributes\._delayed_child_attrs_all"
+                   r"\n        if dcaa is not None:\n            field_type = "
+                   r"field_type\.customize\(\*\*dcaa\)\n\n)(.*?)"
+                   r"(        cls\._type_info\.insert)",
+                   lambda m_: m_.group(2) + m_.group(1) + m_.group(3),
+                   regex=True), 'policy-order'),
+    Mutant('array-bound-overridden', 'R8', 'fire', _C,
+           in_func('Array.__new__',
+                   "            if serializer.Attributes.max_occurs == 1:\n"
+                   "                kwargs['max_occurs'] = 'unbounded'\n",
+                   "            kwargs.setdefault('max_occurs', 'unbounded')"
+                   "\n"), 'missing-guard'),
     Mutant('mandatory-fast-path', 'R6', 'fire', _C,
            in_func('Mandatory', "    kwargs = dict(min_occurs=1, "
                    "nillable=False)\n",
